@@ -389,7 +389,7 @@ Split(s, accu) ==
   ELSE IF s[1] = "/" THEN <<accu>> \o Split(Tail(s), <<>>)
   ELSE Split(Tail(s), Append(accu, s[1]))
 RECURSIVE JoinText(_)
-JoinText(seg) == IF Len(seg) = 0 THEN "" ELSE seg[1] \o JoinText(Tail(seg))
+JoinText(seg) == IF Len(seg) = 0 THEN "" ELSE AtomText(seg[1]) \o JoinText(Tail(seg))
 Segments(p) == SelectSeq(Split(p, <<>>), LAMBDA g : g # <<>> /\ g # <<".">>)
 SavePath(t, ns, win) ==
   LET segs == Segments(RawPath(t, ns, win)) IN [k \in 1..Len(segs) |-> JoinText(segs[k])]
